@@ -72,7 +72,8 @@ def run_on_patch(prop, patch, tier="quick", runs=None, seed=driver.DEFAULT_SEED,
     scratch = apply_patch_scratch(patch)
     try:
         env = dict(os.environ)
-        env.update(PYTHONPATH=scratch, VERIF_REPO=scratch, VERIF_KEEP_PYTHONPATH="1", VERIF_SEED=str(seed))
+        env.update(PYTHONPATH=scratch, VERIF_REPO=scratch, VERIF_KEEP_PYTHONPATH="1", VERIF_SEED=str(seed),
+                   VERIF_REPLAY_DIR=os.path.join(scratch, "replays"))
         cmd = [driver.PY, "-u", os.path.join(ROOT, "check"), prop, "--tier", tier, "--no-evidence"]
         if runs:
             cmd += ["--runs", str(runs)]
